@@ -5,7 +5,7 @@ From Coq Require Import Lia ZifyBool ZifyNat.
 
 Ltac simp_r :=
   cbn [r_method r_rawquery r_headers r_cookies r_form r_query r_body r_getbody r_reader r_unreplayable r_attempt
-       r_path r_pparams r_ordered r_marshal
+       r_path r_pparams r_ordered r_marshal r_close
        set_headers set_cookies set_form set_body set_reader set_attempt set_marshal].
 
 Definition refused (ro : option ropt) (s : rstate) : bool :=
@@ -126,12 +126,17 @@ Qed.
 
 Lemma prep_body_cookies X : r_cookies (prep_body detect c X) = r_cookies X.
 Proof.
-  unfold prep_body, prep_body_gen, detect_stage, marshal_stage. destruct X as [m rq h ck f q bd gb rd un at_ pa pp od ms]. simp_r.
+  unfold prep_body, prep_body_gen, detect_stage, marshal_stage. destruct X as [m rq h ck f q bd gb rd un at_ pa pp od ms cl]. simp_r.
   repeat match goal with
          | |- context [if ?b then _ else _] => destruct b; simp_r
          | |- context [match ?b with Some _ => _ | None => _ end] => destruct b; simp_r
          end; reflexivity.
 Qed.
+
+(* "Connection: close" exactly when the caller asked for it (EnableCloseConnection) - on every
+   attempt (C10_attempts_identical): nothing in an attempt writes the flag *)
+Theorem first_wire_close s : w_close (wire_of c (prepare detect c s)) = r_close s.
+Proof. unfold wire_of. cbn [w_close]. apply prepare_close. Qed.
 
 (* request-level cookies first, then the client-level ones - once *)
 Theorem first_wire_cookies s :
@@ -212,7 +217,7 @@ Theorem first_wire_no_payload s :
   payload_forbid c (r_method s) = true -> w_body (wire_of c (prepare detect c s)) = None.
 Proof.
   intros Hf. unfold wire_of. cbn [w_body]. unfold prepare, prep_cookie, prep_header.
-  destruct s as [m rq h ck f q bd gb rd un at_ pa pp od ms]. simp_r. cbn [r_method] in Hf.
+  destruct s as [m rq h ck f q bd gb rd un at_ pa pp od ms cl]. simp_r. cbn [r_method] in Hf.
   unfold prep_body, prep_body_gen, body_now.
   destruct (nonempty (c_cookies c) && _); simp_r; rewrite Hf; reflexivity.
 Qed.
@@ -276,7 +281,7 @@ End RunProofs.
 (* ---------- the pinned code does not have these properties ---------- *)
 
 Definition ex_client : client := mkClient [] [(bs "a", bs "1")] [] [] true [].
-Definition ex_state : rstate := mkR (bs "POST") [] [] [] [] [] None GBNil [] false 0 [] [] [] None.
+Definition ex_state : rstate := mkR (bs "POST") [] [] [] [] [] None GBNil [] false 0 [] [] [] None false.
 Definition ex_ropt : ropt := mkRopt 1 0 [] [].
 Definition ex_script : list ain := [mkAin (OErr 1 false) [] false; mkAin (OStatus 200) [] false].
 
@@ -306,7 +311,7 @@ Proof. vm_compute. split; reflexivity. Qed.
 (* without the restart (the counter reset only in Send, say): a request whose first execution
    used up its two retries gets none in the next one *)
 Definition ex_ropt2 : ropt := mkRopt 2 0 [] [].
-Definition ex_stale : rstate := mkR (bs "POST") [] [] [] [] [] None GBNil [] false 2 [] [] [] None.
+Definition ex_stale : rstate := mkR (bs "POST") [] [] [] [] [] None GBNil [] false 2 [] [] [] None false.
 Definition ex_script3 : list ain := [mkAin (OErr 1 false) [] false; mkAin (OErr 1 false) [] false; mkAin (OStatus 200) [] false].
 
 Theorem stale_counter_refuted :
